@@ -227,8 +227,27 @@ def make_case(ctx, g):
     b = DocBuilder(g, w, repeat_id=0.3, malformed=0.0, value_kinds=["str", "int", "float", "bool", "dt", "uri", "qn", "lit", "int", "bool"])
     d, scopes = b.random_document(n_records=g.rng.randint(1, 6))
     edit = g.choice(EDITS)
+    members = None
+    if g.chance(0.15):
+        # a membership holding several entities (the call form with prov:collection given as a QualifiedName key): the whole
+        # member set takes part in ==
+        EXN = Namespace("ex", "http://example.org/")
+        pool = [QualifiedName(EXN, "m%d" % i) for i in range(5)]
+        members = g.rng.sample(pool, g.rng.randint(2, 3))
+        coll = QualifiedName(EXN, "coll")
+        w.new_record(d, "Membership", None, [(PROV["collection"], coll)] + [(PROV["entity"], m) for m in members])
     d2 = rebuild(g, w, b, d, edit)
     ctx.count("edit:" + edit)
+    if members is not None and d2 is not None and g.chance(0.7):
+        # … and one more such record on both sides: same members in another order, or one member exchanged
+        other = list(members)
+        g.rng.shuffle(other)
+        if g.chance(0.5):
+            other[g.rng.randrange(len(other))] = g.choice([m for m in pool if m not in members])
+        coll2 = QualifiedName(EXN, "coll2")
+        w.new_record(d, "Membership", None, [(PROV["collection"], coll2)] + [(PROV["entity"], m) for m in members])
+        w.new_record(d2, "Membership", None, [(PROV["collection"], coll2)] + [(PROV["entity"], m) for m in other])
+        ctx.count("multi-member-membership")
     if d2 is not None:
         compare(ctx, w, d, d2, fails, edit, g)
         if g.chance(0.3):
